@@ -42,6 +42,7 @@ def decision_table(fn, argk):
                 if trail[k] == i.block.id and trail[k - 1] == inc["b"]: return resolve(inc["v"], trail[:k])
         return None
     def walk(b, lo, hi, trail):
+        if trail.count(b.id) >= 2: raise AnalysisBroken("varintFloatEncodeAuto: the precision is chosen in a loop (e.g. a scan over a threshold table), not by a chain of comparisons this rule can read")
         trail = trail + [b.id]
         if call[0].block is b:
             out.append((lo, hi, resolve(pv, trail))); return
@@ -81,6 +82,19 @@ def mantissa_bits(mod):
                             if inc["b"] == blk.id and inc["v"]["k"] == "int": v = int(inc["v"]["v"])
                     elif rv["k"] == "int" and r.block is blk: v = int(rv["v"])
                 if v is not None: tab[int(c["v"])] = v
+    if len(tab) < 4:
+        # not a switch (a lookup table, an if-chain): the class table of the function, whatever its form (E1)
+        from .. import e1
+        try:
+            cls = e1.table(mod, fn.name, input_arg=0, dst_arg=-1, input_bits=32)
+            tab = {}
+            for (lo, hi, ret, _st) in cls:
+                r = e1.norm(ret, lo, hi) if ret is not None else None
+                if r is None or not e1.is_c(r): continue
+                if hi - lo < 64:
+                    for x in range(lo, hi + 1): tab[x] = r[1]
+        except (e1.Unsupported, RecursionError) as ex:
+            raise AnalysisBroken("varintFloatPrecisionMantissaBits: table not extracted (%s)" % ex)
     if len(tab) < 4: raise AnalysisBroken("varintFloatPrecisionMantissaBits: table not extracted (%s)" % tab)
     return tab
 
